@@ -24,7 +24,7 @@ VOCAB = [
     r'self\.coll(_explicit)?\.(Qmat|weights|nodes|delta_m)(\[[^\]]*\])+',
     r'(KNOWN|ACC|v\d+)(\[[^\]]*\])?(\.\w+)?(\[:\])?',
     r'self\.get_full_f\(L\.f\[[^\]]*\]\)',
-    r'self\.integrate\(.*\)',
+    r'self\.integrate\(.*\)(\[[^\]]*\])?',
     r'P\.(dtype_u|dtype_f|solve_system|solve_system_1|solve_system_2|eval_f|build_f|boris_solver|apply_mass_matrix)\(.*\)',
     r'P\.(f_init|u_init)',
     r'L\.u\[[^\]]*\](\.\w+)?(\[:\])? [-+] (KNOWN|v\d+)\[[^\]]*\](\.\w+)?(\[:\])?',
@@ -269,6 +269,8 @@ def r6(ctx, R):
     for attr, getter, gen in (('QI', 'get_Qdelta_implicit', 'genQI'), ('QE', 'get_Qdelta_explicit', 'genQE')):
         cs = [c for c in N.contribs if c.target == f'self.{attr}' and c.call and c.call[0] == f'self.{getter}']
         ok = len(cs) == 1 and cs[0].call[2].get('k') == k and any(f'self.{gen}.isKDependent()' in g for g in cs[0].guards)
+        # the rebuild happens for EVERY sweep index: no guard mentions k (a skipped index would keep the matrix of an earlier sweep or run)
+        ok = ok and not any(re.search(rf'\b{re.escape(k)}\b', g) for g in cs[0].guards)
         R.check(ok, f'Sweeper.updateVariableCoeffs :: self.{attr} rebuilt with k when {gen} is k-dependent', w, f'self.{attr} = self.{getter}(.., k={k}) if self.{gen}.isKDependent()', [c.describe() for c in cs])
 
 
